@@ -94,7 +94,15 @@ structure Event (C : Type) where
 def handle {C : Type} [DecidableEq C] (cfg : Cfg) (cks : J → C) (cache : Cache C)
     (ev : WatchEvent) (id : Nat) (obj : J) : Cache C × Option (Event C) :=
   match applyFilter cfg cks obj with
-  | none => (cache, none)                       -- "applyFilter error": logged, return
+  | none =>
+    -- "applyFilter error": logged. Added/Modified: return. Deleted: "Delete is always fired" — the
+    -- event carries a bare ObjectAndFilterResult (no filter result, empty checksum: `cks .null` is a
+    -- stand-in that is never compared, the drivers do not print the checksum of a Deleted event).
+    match ev with
+    | .deleted =>
+      let e := removeFull cfg { cks := cks .null, fr := some .null, obj := some obj }
+      (adel id cache, if shouldFire cfg .deleted then some ⟨.deleted, id, e⟩ else none)
+    | _ => (cache, none)
   | some e0 =>
     let e := removeFull cfg e0
     match ev with
@@ -107,6 +115,13 @@ def handle {C : Type} [DecidableEq C] (cfg : Cfg) (cks : J → C) (cache : Cache
       let cache' := aset id e cache
       if skip then (cache', none)
       else (cache', if shouldFire cfg ev then some ⟨ev, id, e⟩ else none)
+
+/-- The unrepaired `handleWatchEvent` returned on every filter error, also for Deleted. -/
+def handleUnrepaired {C : Type} [DecidableEq C] (cfg : Cfg) (cks : J → C) (cache : Cache C)
+    (ev : WatchEvent) (id : Nat) (obj : J) : Cache C × Option (Event C) :=
+  match applyFilter cfg cks obj with
+  | none => (cache, none)
+  | some _ => handle cfg cks cache ev id obj
 
 /-- `loadExistedObjects`: the initial list goes into the cache, nothing is emitted. An object the
 filter fails on makes the whole call fail (`none`). -/
@@ -137,7 +152,12 @@ abbrev Known := List (Nat × J)
 /-- One change: (what is known afterwards, does it trigger). -/
 def step (cfg : Cfg) (known : Known) (ev : WatchEvent) (id : Nat) (obj : J) : Known × Bool :=
   match project cfg obj with
-  | none => (known, false)     -- the filter fails on the object: the change is ignored altogether
+  | none =>
+    -- the filter fails on the object: there is no projection to compare. A delete is reported all
+    -- the same (the object is gone whatever the filter says); an Added/Modified change is ignored.
+    match ev with
+    | .deleted => (adel id known, decide (WatchEvent.deleted ∈ cfg.types))
+    | _ => (known, false)
   | some p =>
     match ev with
     | .deleted => (adel id known, decide (WatchEvent.deleted ∈ cfg.types))
